@@ -31,6 +31,12 @@ CFG = {
                      UserAlpha='{"ok", "missing", "wrong"}',
                      MiAlpha='{"ok", "missing", "wrongKey", "remoteKey", "garbled"}',
                      FpAlpha='{"ok", "none"}'), (60, 6)),
+        # the process-wide shared single-port ICE-TCP listener: the first frame of a new connection is demultiplexed
+        # by the ufrag in its USERNAME and attaches the connection; later frames arrive on the attached connection
+        ("tcpmux", dict(Socks='{"tcpmux"}', Lites="{FALSE}",
+                        UserAlpha='{"ok", "missing", "wrong"}',
+                        MiAlpha='{"ok", "missing", "wrongKey", "remoteKey", "garbled"}',
+                        FpAlpha='{"ok"}'), (60, 6)),
     ],
     "thorough": [
         ("udp-fine", dict(Socks='{"udp"}', Lites="{FALSE, TRUE}",
@@ -47,6 +53,11 @@ CFG = {
                           MiAlpha='{"ok", "missing", "wrongKey", "remoteKey", "emptyKey", "ufragKey", "garbled", '
                                   '"garbledBody", "truncated"}',
                           FpAlpha='{"ok", "none"}'), (500, 8)),
+        ("tcpmux-fine", dict(Socks='{"tcpmux"}', Lites="{FALSE, TRUE}",
+                             UserAlpha='{"ok", "missing", "wrong", "swapped", "prefix", "nocolon", "empty"}',
+                             MiAlpha='{"ok", "missing", "wrongKey", "remoteKey", "emptyKey", "ufragKey", "garbled", '
+                                     '"garbledBody", "truncated"}',
+                             FpAlpha='{"ok", "none"}'), (500, 8)),
     ],
 }
 
